@@ -16,6 +16,7 @@ from ..common import Report, Violation
 
 STATES = ("none", "connected", "ready", "waiting_dwa", "disconnecting")
 REALM2 = "realm2.example"
+REALM3 = "realm3.example"
 
 
 def cfg_for(states, defaults, nodelay=False):
@@ -29,9 +30,10 @@ def cfg_for(states, defaults, nodelay=False):
     return {"node": {"ips": [], "tcp_port": None, "cer_timeout": 600, "cea_timeout": 600, "idle_timeout": 600, "dwa_timeout": 600, "wakeup": 1},
             "peers": peers,
             "apps": [{"id": 3, "acct": True, "peers": [0, 1, 2]},       # A0: all three peers, own realm
-                     {"id": 4, "auth": True, "peers": [2], "realms": [REALM2]},   # A1: peer 3, own realm + an additional realm
+                     {"id": 4, "auth": True, "peers": [2], "realms": [REALM2, REALM3]},   # A1: peer 3, own realm + two additional realms
                      {"id": 5, "auth": True, "peers": []},              # A2: no peers of its own: default peers only
-                     {"id": 3, "acct": True, "peers": [0]}]}            # A3: a second instance of A0's application id, peer 1 only
+                     {"id": 3, "acct": True, "peers": [0]},             # A3: a second instance of A0's application id, peer 1 only
+                     {"id": 6, "auth": True, "peers": [0], "realms": [REALM2]}]}  # A4: peer 1, own realm + the first additional realm only
 
 
 def eligible(cfg, app_i, realm):
@@ -81,8 +83,8 @@ def work_config(args):
                 calls.append([p.node_name for p in peers])
                 return peers[-1]
             nw.node.peer_route_select_func = cb
-        for app_i, realmkey in itertools.product(range(len(cfg["apps"])), ("own", "r2", "foreign")):
-            realm = {"own": env.NODE_REALM, "r2": REALM2, "foreign": "nowhere.example"}[realmkey]
+        for app_i, realmkey in itertools.product(range(len(cfg["apps"])), ("own", "r2", "r3", "foreign")):
+            realm = {"own": env.NODE_REALM, "r2": REALM2, "r3": REALM3, "foreign": "nowhere.example"}[realmkey]
             n += 1
             before = {i: len(s.out) for i, s in by_peer.items()}
             ncalls = len(calls)
@@ -368,7 +370,7 @@ def run(tier):
                     "traces_validated_against_impl": len(jobs) + execs + totc["transitions"],
                     "schedules": execs, "configurations": len(jobs), "distinct_outcomes_total": outcomes,
                     "explanation": "A: every vector of 3 peers x {none, connected, ready, waiting DWA, disconnecting} x 4 default-peer patterns x {least-used, custom "
-                                   "callback} (quick: callback on a VERIF_SEED-rotated half), 12 send_requests (4 applications, two of them instances of one application id, x 3 realms) each, judged against "
+                                   "callback} (quick: callback on a VERIF_SEED-rotated half), 20 send_requests (5 applications, two of them instances of one application id, x 4 realms) each, judged against "
                                    "eligibility computed from the configuration. B: 2..3 concurrent send_request callers, answers forward/reverse, duplicated, "
                                    "late, unknown ids, on the wrong connection; every schedule within the preemption bound at line granularity. C: BFS over histories in which "
                                    "three ready peers receive DPR / are lost / await a DWA / reconnect between send_requests; every request written must target a "
